@@ -463,7 +463,7 @@ Definition decode_msop_mems_sub (d : desc) (c : dcfg) (s : dstate) (b : bytes) (
   let per_blk := map (mems_block_points d c w sb 0 pkt_ts dual_hdr) (map Z.of_nat (seq 0 (Z.to_nat (d_blocks_per_pkt d)))) in
   let pts := filter (keep c) (flat_map fst per_blk) in
   let last_ts := last (map snd per_blk) (s_prev_point_ts s) in
-  let s' := upd_mems s sq (Some (temp_raw d sb 0)) (s_temp_flag s || d_sets_temp_flag d) pkt_ts last_ts first_point in
+  let s' := upd_mems s sq (Some (temp_raw d sb 0)) true pkt_ts last_ts first_point in
   let end_split := if d_m1_end_split d && (seq_max_seq sq =? seqn)
                    then Some (if c_ts_first c then first_point else last_ts) else None in
   (s', mk_blk_out sp cloud_ts pts, b', end_split).
